@@ -6,8 +6,8 @@ from ..ops import *
 from .c04 import judge
 
 IMPORTS = ('From OFV Require Import Base.Cplx Base.Lin Sem.PauliSem Sem.FermiSem Model.SymbolicOp Model.QubitOp Model.LadderOp Model.BinaryPoly '
-           'Check.DictEquiv Check.OpEquiv Check.CodeTransform.\n')
-NEEDS = ['Thm/C09/EvalHom', 'Check/CodeTransform']
+           'Check.DictEquiv Check.OpEquiv Check.CodeTransform Thm.C09.ParityCode.\n')
+NEEDS = ['Thm/C09/EvalHom', 'Thm/C09/ParityCode', 'Check/CodeTransform']
 
 def cmono(t): return '(' + clist([cnat(int(v)) for v in t if not isinstance(v, str)]) + ' : mono)'
 def cpoly(p): return '(' + clist([cmono(t) for t in p.terms]) + ' : bpoly)'
@@ -127,6 +127,12 @@ def run(ctx):
             rows = rows_of(code)
             add('code_validity_large', '(code_valid_on %s %s %s && injective_on %s %s)' % (cNl(rows), '(' + clist([cpoly(d) for d in code.decoder]) + ' : list bpoly)', cNl(dom), cNl(rows), cNl(dom)),
                 {'call': name, 'n_modes': code.n_modes, 'n_qubits': code.n_qubits, 'domain_sample': len(dom)}, key=name)
+    # ---- the implementation's parity / Jordan-Wigner codes are the models of the unbounded round-trip theorems
+    for n in list(range(1, N(13, 25))) + [32, 40]:
+        for nm_, mk_, chk in (('parity_code', bc.parity_code, 'code_is_parity'), ('jordan_wigner_code', bc.jordan_wigner_code, 'code_is_jw')):
+            code = mk_(n)
+            add('code_model_' + nm_, '(%s %s %s %s)' % (chk, cnat(n), cNl(rows_of(code)), '(' + clist([cpoly(d) for d in code.decoder]) + ' : list bpoly)'),
+                {'call': '%s(%d)' % (nm_, n)}, key=(nm_, n))
     # ---- binary_code_transform acts on encoded states as the operator acts on occupation states
     for name, code, dom in exprs:
         if code.n_modes > 6 or code.n_qubits > 8 or len(dom) > 64: continue
